@@ -565,6 +565,40 @@ LastStartedChecks == <<
       "C04:invocation-marked-as-served-without-an-operation-starting">>
   >>
 
+\* Drains and termination marks are read from the snapshot by the checks
+\* above; here their bookkeeping is tied to the operator calls that were
+\* observed: a drain exists from a successful AddDrain until the RemoveDrain
+\* of the same pattern, a worker is marked by the TerminateWorkers calls
+\* whose pattern it matches, and nothing else changes either.
+PatSet(kvs) == {<<kvs[i].k, kvs[i].v>> : i \in DOMAIN kvs}
+DrainsOf(q) == {PatSet(q.drain_patterns[di]) : di \in DOMAIN q.drain_patterns}
+QueueByKey(s, qkey) == {qi \in QIdx(s) : QueueKey(s.queues[qi]) = qkey}
+CallQueueKey == <<Call.prefix, Call.platform, Call.size_class>>
+DrainCall == Call.kind \in {"drain", "undrain"} /\ Line.first
+Matches(pat, w) == pat \subseteq PatSet(w.idp)
+DrainBookChecks ==
+  IF ~Simple THEN <<>>
+  ELSE <<
+    <<\A qi \in QIdx(Post) :
+        LET qkey == QueueKey(Post.queues[qi])
+            old == QueueByKey(S, qkey)
+        IN old # {} =>
+             \A qj \in old :
+               DrainsOf(Post.queues[qi]) =
+                 IF DrainCall /\ qkey = CallQueueKey
+                 THEN IF Call.kind = "drain" THEN DrainsOf(S.queues[qj]) \cup {PatSet(Call.pattern_kv)}
+                      ELSE DrainsOf(S.queues[qj]) \ {PatSet(Call.pattern_kv)}
+                 ELSE DrainsOf(S.queues[qj]),
+      "C05:drains-do-not-follow-the-add-and-remove-calls">>,
+    <<\A x \in WorkersOf(Post) :
+        LET qkey == QueueKey(Post.queues[x[1]])
+            old == {y \in WorkersOf(S) : QueueKey(S.queues[y[1]]) = qkey /\ y[2].id = x[2].id}
+        IN \A y \in old :
+             x[2].terminating =
+               (y[2].terminating \/ (Call.kind = "terminate" /\ Line.first /\ Matches(PatSet(Call.pattern_kv), x[2]))),
+      "C05:terminating-mark-does-not-follow-the-terminate-calls">>
+  >>
+
 CommonChecks == <<
     <<C06_NoStaleInvocations(Post), "C06:invocation-retained-without-operations-or-workers">>,
     <<\A qi \in QIdx(Post) : \A w \in Rng(Post.queues[qi].workers) : w.drained = DrainedRef(Post.queues[qi], w),
@@ -769,7 +803,7 @@ SecChecks ==
   \o (IF Call.kind = "execute" /\ Line.first THEN ExecChecks ELSE <<>>)
   \o (IF Call.kind = "sync" /\ ~IsDupSync THEN SyncChecks ELSE <<>>)
   \o (IF IsDupSync THEN DupSyncChecks ELSE <<>>)
-  \o RetryChecks \o BgChecks \o LearnerChecks \o PickChecks \o HandOffChecks \o LastStartedChecks
+  \o RetryChecks \o BgChecks \o LearnerChecks \o PickChecks \o HandOffChecks \o LastStartedChecks \o DrainBookChecks
 
 TSec ==
   /\ IsEvent("sec")
